@@ -8,7 +8,8 @@
 (*   [k |-> "grp", a |-> name, b |-> name, eq |-> BOOLEAN]                 *)
 (*        a parenthesised expression that looks like an arrow head but is  *)
 (*        not followed by '=>':  (a,b);  or  (a=b);                        *)
-(*   [k |-> "open", s |-> kind, n |-> name or "", ps |-> parameter list]   *)
+(*   [k |-> "open", s |-> kind, n |-> name or "", ps |-> parameter list,   *)
+(*    c |-> name used in a loop condition or ""]                           *)
 (*        kinds: fn (function declaration) fx (function expression)        *)
 (*        ar (arrow function) blk (block) forlet forvar (loop heads)       *)
 (*        catch cls (class declaration) cx (class expression); the body of *)
@@ -118,7 +119,12 @@ OccOf(p, par, D, j) ==
                            ELSE <<[n |-> it.ps[q].n, b |-> <<j, it.ps[q].n>>]>>
                                 \o (IF it.ps[q].d = "" THEN <<>> ELSE <<[n |-> it.ps[q].d, b |-> Lookup(p, D, chIn, it.ps[q].d, TRUE)]>>)
                                 \o ParamOcc(q + 1)
-        IN nameOcc \o (IF it.s \in HasParams THEN ParamOcc(1) ELSE <<>>)
+            \* the loop condition sees the head's let and whatever the loop statement's surroundings see -- not the
+            \* lexical declarations of the loop BODY, which is a block of its own
+            condOcc == IF it.c = "" THEN <<>>
+                       ELSE IF it.s = "forlet" /\ it.c = it.n THEN <<[n |-> it.c, b |-> <<j, it.c>>]>>
+                       ELSE <<Use(it.c, chHere)>>
+        IN nameOcc \o (IF it.s \in HasParams THEN ParamOcc(1) ELSE <<>>) \o condOcc
     ELSE <<>>
 RECURSIVE OccFrom(_, _, _, _)
 OccFrom(p, par, D, j) == IF j > Len(p) THEN <<>> ELSE OccOf(p, par, D, j) \o OccFrom(p, par, D, j + 1)
@@ -182,7 +188,8 @@ AddOpen  == \E s \in Kinds :
               /\ (s = "fn" => CurKind \in {"prog"} \cup FuncLike)      \* function declarations only at function level
               /\ \E n \in (IF s \in Named \cup HeadNamed THEN Names ELSE IF s \in OptNamed THEN Names \cup {""} ELSE {""}) :
                  \E ps \in (IF s \in HasParams THEN ParamLists ELSE {NoParams}) :
-                    prog' = Append(prog, [k |-> "open", s |-> s, n |-> n, ps |-> ps])
+                 \E c \in (IF s \in {"forlet", "forvar"} THEN Names \cup {""} ELSE {""}) :     \* a name used in the loop condition
+                    prog' = Append(prog, [k |-> "open", s |-> s, n |-> n, ps |-> ps, c |-> c])
               /\ depth' = depth + 1
 AddClose == depth > 0 /\ prog' = Append(prog, [k |-> "close"]) /\ depth' = depth - 1
 
